@@ -159,7 +159,14 @@ func (c *FnCtx) instr(ins ssa.Instruction) {
 	case *ssa.Call:
 		c.call(x, &x.Call, x)
 	case *ssa.Go:
-		// the spawned goroutine is verified separately as a sequential function
+		// the spawned goroutine is verified separately as a sequential function; the contract of the
+		// spawning function may state facts at the spawn ("before go:<callee> assert") and count spawns
+		// ("after go:<callee> set g = e")
+		if c.spec != nil && (len(c.spec.Hints) > 0 || len(c.spec.Sets) > 0) {
+			key := "go:" + c.resolveCallee(&x.Call).name
+			c.pointHints(key, x, x.Pos(), nil)
+			c.pointSets(key, x, nil)
+		}
 		return
 	case *ssa.Defer:
 		c.defers = append(c.defers, x)
@@ -424,6 +431,12 @@ func (c *FnCtx) next(x *ssa.Next) {
 func (c *FnCtx) unop(x *ssa.UnOp) {
 	switch x.Op {
 	case token.MUL:
+		if fv, ok := x.X.(*ssa.FreeVar); ok {
+			if t, ok := c.frozenFreeVar(fv); ok {
+				c.def(x, t)
+				return
+			}
+		}
 		if a, ok := x.X.(*ssa.Alloc); ok {
 			if st := frozenCellStore(a); st != nil && storeBefore(st, x) {
 				// a captured local that is assigned once (a spilled parameter) and only ever read, here and in
@@ -828,4 +841,82 @@ func storeBefore(st *ssa.Store, ld ssa.Instruction) bool {
 		}
 	}
 	return false
+}
+
+// frozenBinding: the value a captured variable of fn was given, if the variable is assigned exactly
+// once (where it is declared) and only read afterwards - in the declaring function and in every
+// closure capturing it.  Such a variable is a constant for the whole life of the closure.
+func frozenBinding(fn *ssa.Function, idx int) (ssa.Value, bool) {
+	parent := fn.Parent()
+	if parent == nil {
+		return nil, false
+	}
+	for _, b := range parent.Blocks {
+		for _, ins := range b.Instrs {
+			mc, ok := ins.(*ssa.MakeClosure)
+			if !ok || mc.Fn != fn || idx >= len(mc.Bindings) {
+				continue
+			}
+			switch bv := mc.Bindings[idx].(type) {
+			case *ssa.Alloc:
+				if st := frozenCellStore(bv); st != nil {
+					return st.Val, true
+				}
+			case *ssa.FreeVar:
+				for i, pfv := range parent.FreeVars {
+					if pfv == bv {
+						return frozenBinding(parent, i)
+					}
+				}
+			}
+			return nil, false
+		}
+	}
+	return nil, false
+}
+
+// frozenFreeVar: the constant standing for a frozen captured variable inside the closure (declared
+// once; non-nil where the captured value is a parameter assumed non-nil or a fresh object).
+func (c *FnCtx) frozenFreeVar(fv *ssa.FreeVar) (Term, bool) {
+	if t, ok := c.frozenFV[fv]; ok {
+		return t, t != ""
+	}
+	c.frozenFV[fv] = ""
+	idx := -1
+	for i, f := range c.fn.FreeVars {
+		if f == fv {
+			idx = i
+		}
+	}
+	el := fv.Type().(*types.Pointer).Elem()
+	switch el.Underlying().(type) {
+	case *types.Struct, *types.Array:
+		return "", false
+	}
+	val, ok := frozenBinding(c.fn, idx)
+	if idx < 0 || !ok {
+		return "", false
+	}
+	t := c.declare("fz$"+sanitize(fv.Name()), c.sortOf(el))
+	c.frozenFV[fv] = t
+	c.axioms = append(c.axioms, c.tyInv0(t, el))
+	nonNil := false
+	switch v := val.(type) {
+	case *ssa.Alloc, *ssa.MakeChan, *ssa.MakeMap, *ssa.MakeClosure, *ssa.MakeInterface, *ssa.Function:
+		nonNil = true
+	case *ssa.Parameter:
+		// same assumption as for the parameter in its own function: pointer, interface and function
+		// parameters are non-nil unless that function's contract declares them nilable
+		switch v.Type().Underlying().(type) {
+		case *types.Pointer, *types.Interface, *types.Signature:
+			nonNil = v.Type().String() != "error"
+			if ps := c.g.specs.Funcs[c.g.fnName(v.Parent())]; ps != nil && ps.Nilable[v.Name()] {
+				nonNil = false
+			}
+		}
+	}
+	if nonNil {
+		c.axioms = append(c.axioms, not(eq(t, "0")))
+	}
+	return t, true
 }
